@@ -181,7 +181,8 @@ VARIABLE bad
 Props == <<
   %s >>
 RunInit == Init /\\ bad = {}
-RunNext == Next /\\ bad' = bad \\cup {<<Props'[i][1], hdr'.ep, l>> : i \\in {k \\in DOMAIN Props' : ~(Props'[k][2])}}
+\\* (the first failing line of a formula in an episode is enough: a formula that stays false must not make the set grow with every line)
+RunNext == Next /\\ bad' = bad \\cup {<<Props'[i][1], hdr'.ep, l>> : i \\in {k \\in DOMAIN Props' : ~(Props'[k][2]) /\\ ~\\E b \\in bad : b[1] = Props'[k][1] /\\ b[2] = hdr'.ep}}
 RunSpec == RunInit /\\ [][RunNext]_<<vars, bad>>
 Report == l <= Len(Trace) \\/ PrintT(<<"VERIF-BAD", bad>>)
 Consumed == TLCGet("stats").diameter - 1 = Len(Trace)
@@ -633,12 +634,17 @@ def check_property(pid, tier, seed):
             pr = subprocess.run([binary, '-test.run', '^TestVerifCodec$', '-test.timeout', '900s'], capture_output=True, text=True,
                                 env=dict(os.environ, VERIF_CODEC_OUT=cout, VERIF_SEED=str(seed), VERIF_CODEC_N=str(ncodec)))
             cev = [json.loads(x) for x in open(cout)] if os.path.exists(cout) else []
-            if pr.returncode != 0 and not cev:
-                raise Inconclusive('codec harness failed:\n' + (pr.stdout + pr.stderr)[-2000:])
+            outp = pr.stdout + pr.stderr
+            # a panic whose stack goes through the library's decode / dispatch path is an outcome (a crashed episode, judged by
+            # C12_NoCrash and confirmed by running the harness again); anything else that kills the harness is no verdict
+            libpanic = 'panic:' in outp and re.search(r'github\.com/goptics/varmq\.(parseToJob|\(\*worker|\(\*job|\(\*distributed|\(\*persistent)', outp)
+            if pr.returncode != 0 and not cev and not libpanic:
+                raise Inconclusive('codec harness failed:\n' + outp[-2000:])
             stub = {'id': 'C12codec', 'family': 'codec', 'cfg': {'wk': 'plain', 'conc': 2, 'queues': []}, 'clients': [], 'outcome': {}, 'sched': {'kind': 'free', 'seed': seed}}
             cep = {'prog': stub, 'events': cev, 'header': {'ep': 'C12codec'}, 'end': {'result': 'ok' if pr.returncode == 0 else 'crash'}}
             if pr.returncode != 0:
-                cep['crash'] = crash_class(pr.stdout + pr.stderr)
+                cep['crash'] = crash_class(outp)
+                cep['crash_output'] = outp[-3000:]
             return cep
         if pid == 'C12':
             cep = run_codec('a')
